@@ -65,7 +65,7 @@ class C11(Prop):
         labels = {'data': dp, 'model': mp, 'clip': case['clip'], 'blocks': case['blocks'], 'bucketed': case['cap'] > 0,
                   'bias_free_col': any(not b[0] for b in case['bias']), 'bias_free_row': any(not b[1] for b in case['bias'])}
         clip_region = case['clip'] == 'active' and mp >= 2
-        res = gptrun.run_gpt(case, program, case['schedule'], case['flip'], observe=('state',))
+        res = gptrun.run_gpt(case, program, case['schedule'], case['flip'], observe=('state', 'grads_before'))
         if res.timed_out:
             raise RuntimeError('simulation timed out (harness)')
         if not res.ok:
@@ -109,7 +109,19 @@ class C11(Prop):
                     exp = gptrun.shard_of(case, pname, full, co.model)
                     if tuple(g.shape) != tuple(exp.shape):
                         return violation(f'step {t} rank {rank}: gradient {pname} has shape {tuple(g.shape)}, its shard of the unsharded gradient has {tuple(exp.shape)}', 'shard-shape', labels=labels)
-                    tol = tols[lname] + (tmax if case['clip'] == 'active' else 0.0) + 2 * cum
+                    # the sharded and the unsharded run compute the raw gradient D along different float32 summation orders
+                    # (sharded matmuls + all-reduce); that input difference is measured and amplified by the conditioning
+                    bfull_w = ref[t]['before'][lname + '.weight'].double()
+                    bfull_b = ref[t]['before'].get(lname + '.bias')
+                    dnorm = max((bfull_w.norm().item() ** 2 + (bfull_b.double().norm().item() ** 2 if bfull_b is not None else 0.0)) ** 0.5, 1e-300)
+                    dD = 0.0
+                    for r2 in range(W):
+                        c2 = topo.get_coord(r2)
+                        for pn in (lname + '.weight', lname + '.bias'):
+                            if pn in res.results[r2][t]['before']:
+                                e = gptrun.shard_of(case, pn, ref[t]['before'][pn], c2.model).double() - res.results[r2][t]['before'][pn].double()
+                                dD = max(dD, e.norm().item() / dnorm)
+                    tol = tols[lname] + 4 * kmax[lname] * dD + (tmax if case['clip'] == 'active' else 0.0) + 2 * cum
                     # replicas / peers: exact
                     for other in range(W):
                         oc = topo.get_coord(other)
@@ -122,13 +134,17 @@ class C11(Prop):
                         continue
                     informative = True
                     # compare per layer-parameter against the slice of the unsharded result
-                    den = max(full.norm().item(), 1e-300)
+                    # the weight and bias columns belong to ONE solve (A couples them): errors are relative to the layer's
+                    # combined gradient, not to each parameter separately
+                    fb = ref[t]['after'].get(lname + '.bias')
+                    fw = ref[t]['after'][lname + '.weight']
+                    den = max((fw.double().norm().item() ** 2 + (fb.double().norm().item() ** 2 if fb is not None else 0.0)) ** 0.5, 1e-300)
                     err = (g.to(torch.float64) - exp.to(torch.float64)).norm().item() / den
                     worst = max(worst, err / tol)
                     if err > tol:
                         key = 'clip-scale-model-parallel' if clip_region else 'shard-mismatch'
                         return violation(f'step {t} rank {rank} {tuple(co)}: gradient {pname} differs from its shard of the unsharded layer\'s gradient by {err:.3e} '
-                                         f'(relative to the full gradient; tolerance {tol:.3e}; clip={case["clip"]}, data={dp}, model={mp}, bias={case["bias"]})', key, labels=labels)
+                                         f'(relative to the combined unsharded gradient of the layer; tolerance {tol:.3e}; clip={case["clip"]}, data={dp}, model={mp}, bias={case["bias"]})', key, labels=labels)
             cum += tmax
         nt = mp >= 2 and informative
         labels['nontrivial'] = nt
